@@ -4,7 +4,10 @@ Histories of writes and reads over sized (file-backed) values with a size limit
 just above the empty database, per policy x cull_limit, expired items mixed in,
 compared with DC.Model.Cache (`cullW`, `cull`); the acceptor re-derives the
 eviction rule from the observed table states.  A systematic family (cull_limit c,
-k expired items with k around c, cache past the limit, one write) runs first."""
+k expired items with k around c, cache past the limit, one write) runs first.
+Judged directly on consecutive states: at most cull_limit rows per write, victims
+in policy order, no eviction while the volume left after the expired rows are
+gone is below the limit, a write or (LRU/LFU) a read refreshes the item."""
 import gen
 from props import base, refdict
 
@@ -101,17 +104,21 @@ def acceptor(hist, io):
                         return "policy 'none' evicted an unexpired item (rowid %d) at %s" % (victims[0]['rowid'], line[:120])
                     env = f.get('env', '-')
                     if env != '-':
-                        # Settings.size as _cull saw it is at most size-before + bytes this write added
+                        # the policy step may run only if the cache is at its limit AFTER the expired rows of this
+                        # write are gone: volume then = database pages (observed) + sizes of the rows that are left
+                        # (those still there now + the victims).  A row inserted and evicted by the same write is in
+                        # neither state: bound it by the value written.
                         z_before = sum(r['size'] for r in prev)
                         z_after = sum(r['size'] for r in cur)
                         all_gone = [r for rid, r in before.items() if rid not in after]
                         added = z_after - z_before + sum(r['size'] for r in all_gone)
-                        # a row inserted and evicted by the same write is in neither state: bound it by the value written
                         vhex = f.get('v', '')
                         written = len(vhex) // 2 if vhex[:1] in 'yo' else (len(vhex.split('.')) * 4 if vhex[:1] == 's' else 64)
-                        vol = int(env.split(',')[0]) + z_before + max(0, added) + (0 if added > 0 else written) + len(f.get('vp', '')) // 2
+                        slack = (0 if added > 0 else written) + len(f.get('vp', '')) // 2
+                        evicted = sum(r['size'] for r in all_gone if not (r['exp'] is not None and r['exp'] < now))
+                        vol = int(env.split(',')[0]) + z_after + evicted + slack
                         if vol < limit:
-                            return 'eviction below the size limit (volume <= %d < %d) at %s: victims %s' % (
+                            return 'eviction below the size limit (volume after removing the expired items <= %d < %d) at %s: victims %s' % (
                                 vol, limit, line[:100], [(v['rowid'], v['exp']) for v in victims])
                     keyf = {'lrs': 'store', 'lru': 'acc', 'lfu': 'accn'}[pol]
                     # survivors that existed before the write with an unchanged policy key
@@ -121,6 +128,17 @@ def acceptor(hist, io):
                             if b is not None and b[keyf] == s[keyf] and s[keyf] < v[keyf]:
                                 return 'policy %s evicted rowid %d (%s=%d) while rowid %d (%s=%d) survived' % (
                                     pol, v['rowid'], keyf, v[keyf], s['rowid'], keyf, s[keyf])
+            # a write of a key makes it the most recently used one (LRU orders by "stored or read longest ago")
+            if j + 1 < len(lines) and lines[j + 1][0] == 'state' and prev is not None and m in ('set', 'add', 'incr') and pol == 'lru':
+                res = ans.split(' | ')[0][4:]
+                wk = f.get('k', '')
+                dbk = 'y' + wk[1:] if wk[:1] == 'o' else wk
+                a = [r for r in parse_rows(lines[j + 1][1]) if r['key'] == dbk]
+                now = int(f.get('now', 0))
+                stored = res in ('T',) or (m == 'incr' and res[:1] == 'i')
+                if stored and len(a) == 1 and a[0]['store'] == now and a[0]['acc'] != now and m != 'incr':
+                    return 'a write at time %d did not make the item the most recently used one (access time stays %d): %s' % (
+                        now, a[0]['acc'], line[:100])
             # a read that finds the item refreshes what the policy orders by (independently of the
             # table's own bookkeeping being used above): access time for LRU, access count for LFU
             if j + 1 < len(lines) and lines[j + 1][0] == 'state' and prev is not None and m in ('get', 'getitem') \
